@@ -19,6 +19,7 @@ import os
 import vcheck as V
 
 PID = "C04"
+CRASHED = []
 ACTIONS = ["ChooseTs", "ChooseTxs"]
 SIMS = ["MC_TxRules_simA.cfg", "MC_TxRules_simB.cfg"]
 
@@ -94,8 +95,9 @@ def replay_contexts(ctxs, path):
         for i, rc, out in ex.map(lambda i: run_one(path, i, V.seed()), range(len(ctxs))):
             lines = V.parse_ndjson(out)
             if rc != 0 or not any("summary" in x for x in lines):
-                V.log(out[-3000:])
-                raise V.ToolError("c04 run failed on context %d rc=%d" % (i, rc))
+                # a crash inside the code under test is data: judge what was observed first, complain afterwards
+                V.log(out[-1500:])
+                CRASHED.append("c04 run failed on context %d rc=%d" % (i, rc))
             results[i] = lines
     return results
 
@@ -119,12 +121,19 @@ def judge(c, ctxs, results):
                 o = line["detour"]
                 stats["detours"] += 1
                 if not all(o["attached"]):
-                    raise V.ToolError("detour branch not attached: %s" % o)
+                    # the detour block spends g5 and g7, which no block of the main chain ever touches: valid by the spec
+                    c.violation("context-only/detour-block-refused/%s" % errclass("".join(o["err"])),
+                                "a block spending cells that are live in this ledger context was refused on the node that had been "
+                                "through a reorg: %s" % o, {"full_ctx": ctx, "observed": o})
             elif "detour_end" in line:
                 o = line["detour_end"]
-                if not o["back_on_main"] or o["pool_len"] != 0:
-                    raise V.ToolError("detour node did not return to the context: %s" % o)
-                stats["detours_back"] += 1
+                if not o["back_on_main"]:
+                    c.violation("context-only/heavier-main-chain-not-adopted", "the detour node did not reorganise back: %s" % o,
+                                {"full_ctx": ctx, "observed": o})
+                elif o["pool_len"] != 0:
+                    raise V.ToolError("detour node's pool not emptied: %s" % o)
+                else:
+                    stats["detours_back"] += 1
             elif "probe" in line:
                 o = line["probe"]
                 p = ctx["probes"][o["m"]][o["i"]]
@@ -208,6 +217,8 @@ def run(tier):
     c.sample({"context": short_ctx(ctx), "probes_at_tip": [{k: p[k] for k in ("fam", "lab", "pre", "tx", "bv", "pv")} for p in ctx["probes"][-1][:3]]})
     c.sample({"context": short_ctx(ctxs[-1]), "probes_at_tip": [{k: p[k] for k in ("fam", "lab", "bv", "brules", "pv", "prules")} for p in ctxs[-1]["probes"][-1][40:46]]})
     if not c.violations:
+        if CRASHED:
+            raise V.ToolError("; ".join(CRASHED))
         missing = [REQUIRED[n][0] for n in range(len(REQUIRED)) if covered[n] == 0]
         if missing:
             raise V.ToolError("vacuous run: rule boundaries never exercised: %s" % missing)
